@@ -304,7 +304,9 @@ inline std::vector<std::uint8_t> DnsMessage::encodeName(const std::string &name)
 
   encoded.push_back(0); // Null terminator
 
-  if (encoded.size() > constants::DNS_MAX_NAME_SIZE)
+  // `encoded` is the wire form (length octets, labels and the root octet): RFC 1035 allows 255
+  // octets, which corresponds to DNS_MAX_NAME_SIZE (253) characters of dotted text.
+  if (encoded.size() > constants::DNS_MAX_WIRE_NAME_SIZE)
   {
     throw DnsParseException("Domain name too long: " + name);
   }
@@ -631,11 +633,14 @@ DnsMessage::decodeNameWithLoopDetection(const std::uint8_t *data, std::size_t of
     name.append(reinterpret_cast<const char *>(data + offset + 1), length);
     offset += length + 1;
 
+    // totalLength counts length octets and label octets; the root octet that ends the name
+    // brings the wire length to totalLength + 1, which RFC 1035 limits to 255.
     totalLength += length + 1;
-    if (totalLength > constants::DNS_MAX_NAME_SIZE)
+    if (totalLength + 1 > constants::DNS_MAX_WIRE_NAME_SIZE)
     {
-      throw DnsParseException("Domain name too long: " + std::to_string(totalLength) + " (max " +
-                              std::to_string(constants::DNS_MAX_NAME_SIZE) + ")");
+      throw DnsParseException("Domain name too long: " + std::to_string(totalLength + 1) +
+                              " octets (max " +
+                              std::to_string(constants::DNS_MAX_WIRE_NAME_SIZE) + ")");
     }
   }
 
